@@ -1,0 +1,15 @@
+//go:build verif
+
+package database
+
+import "github.com/safing/portbase/database/storage"
+
+// VerifController returns the controller of a registered database (verification harness only).
+func VerifController(name string) (*Controller, error) {
+	return getController(name)
+}
+
+// VerifStorage returns the storage backend behind a controller (verification harness only).
+func (c *Controller) VerifStorage() storage.Interface {
+	return c.storage
+}
